@@ -28,27 +28,27 @@ import (
 
 // Sim is one E1 world.
 type Sim struct {
-	R       *kernel.Run
-	W       *chain.World
-	NVal    int
-	Nodes   []*chain.Node // [0] is the producer
-	Vals    []*account.Account
-	Cands   []*account.Account
-	Users   []*account.Account
-	Pending []*PendingTx
-	nonce   uint32
-	Blocks  []*BlockRec // committed on the producer, index = height-1
-	SetHistory [][]string // consensus sets in force over time (peer ids)
-	badSince   int        // rejected Byzantine submissions since the last committed block
+	R          *kernel.Run
+	W          *chain.World
+	NVal       int
+	Nodes      []*chain.Node // [0] is the producer
+	Vals       []*account.Account
+	Cands      []*account.Account
+	Users      []*account.Account
+	Pending    []*PendingTx
+	nonce      uint32
+	Blocks     []*BlockRec // committed on the producer, index = height-1
+	SetHistory [][]string  // consensus sets in force over time (peer ids)
+	badSince   int         // rejected Byzantine submissions since the last committed block
 	LastTrace  *BlockTrace
 	zeroOwner  bool   // while building a transaction: name the zero address instead of the signer's
 	crashNext  string // crash point armed for follower 1's next block ("" = none)
-	Dead       bool // a node diverged from the engine's chain after a reported violation: the run stops
+	Dead       bool   // a node diverged from the engine's chain after a reported violation: the run stops
 	// BeforeCommit, if set, is called with the block's trace after the generic oracles ran and
 	// BEFORE the block is committed: only then do TxTrace.Pre/.Post read the true per-transaction
 	// states (views fall through to the committed ledger for keys the prefix did not write).
 	BeforeCommit func(*BlockTrace)
-	forceFail  map[common.Uint256]bool // transactions that hook H3 fails after their handler ran
+	forceFail    map[common.Uint256]bool // transactions that hook H3 fails after their handler ran
 }
 
 // PendingTx is a built transaction plus what the plan meant by it.
